@@ -308,10 +308,13 @@ class ParseNeighbor(Section):
         Section.__init__(self, parser, scope, error)
         self._neighbors: list[bytes] = []
         self.neighbors: dict[str, Neighbor] = {}
+        # (neighbor, single family of a multi-session neighbor or None) whose RIB is still to be set up
+        self._uncommitted: list[tuple[Neighbor, Any]] = []
 
     def clear(self) -> None:
         self._neighbors = []
         self.neighbors = {}
+        self._uncommitted = []
 
     def pre(self) -> bool:
         return self.parse(self.name, 'peer-address')
@@ -535,14 +538,29 @@ class ParseNeighbor(Section):
             # remove_self may well have side effects on route
             neighbor.routes.append(neighbor.resolve_self(route))
 
-    def _init_neighbor(self, neighbor: Neighbor, local: dict[str, Any]) -> None:
+    def commit(self) -> None:
+        """Set up the RIB of every neighbor parsed: called once the whole configuration is accepted.
+
+        The RIB of a neighbor is shared, by name, with the running session of the previous
+        configuration: enabling it and queueing the configured routes while parsing would leak
+        the routes of a configuration which is then refused into the live Adj-RIB-Out.
+        """
+        for neighbor, family in self._uncommitted:
+            neighbor.make_rib()
+            if family is not None:
+                neighbor.rib.outgoing.families = {family}
+            families = neighbor.families()
+            for route in neighbor.routes:
+                # remove_self may well have side effects on route
+                route = neighbor.resolve_self(route)
+                if route.nlri.family().afi_safi() in families:
+                    # This add the family to neighbor.families()
+                    neighbor.rib.outgoing.add_to_rib_watchdog(route)
+        self._uncommitted = []
+
+    def _init_neighbor(self, neighbor: Neighbor, local: dict[str, Any], family: Any = None) -> None:
         families = neighbor.families()
-        for route in neighbor.routes:
-            # remove_self may well have side effects on route
-            route = neighbor.resolve_self(route)
-            if route.nlri.family().afi_safi() in families:
-                # This add the family to neighbor.families()
-                neighbor.rib.outgoing.add_to_rib_watchdog(route)
+        self._uncommitted.append((neighbor, family))
 
         for message in local.get('operational', {}).get('routes', []):
             if message.family().afi_safi() in families:
@@ -627,11 +645,8 @@ class ParseNeighbor(Section):
         if neighbor.capability.multi_session.is_enabled() and len(neighbor.families()) > 1:
             for family in neighbor.families():
                 m_neighbor = deepcopy(neighbor)
-                m_neighbor.make_rib()
-                m_neighbor.rib.outgoing.families = {family}
-                self._init_neighbor(m_neighbor, local)
+                self._init_neighbor(m_neighbor, local, family)
         else:
-            neighbor.make_rib()
             self._init_neighbor(neighbor, local)
 
         local.clear()
